@@ -262,7 +262,48 @@ def main(rep, tier, only):
         got_none = [r for r in rows.values() if r[0] is False]
         got_some = [r for r in rows.values() if r[0] is True]
         ok_none = len(got_none) == 1 and got_none[0][1] in ("false", "#1:operator()", "0") or (got_none and all("false" in r[1] or "const_" in r[1] for r in got_none))
-        ok_some = bool(got_some) and all(any(">=" in a and "r_a0" in a.split(">=")[0] for a in r[2]) or ">=" in r[1] for r in got_some)
+        # with a level set the result is `given level >= enabled level`, in any spelling: evaluate the returned comparison (or the
+        # path's own decisions) under the three orders of the two levels
+        def level_row_ok():
+            some_paths = [p for p in paths if any(sx.show(a).startswith("has_value(") and b for a, b in p.decisions)]
+            if not some_paths:
+                return False
+            lvl = fn["params"][0]["name"]
+
+            def side(t):
+                s_ = sx.show(t)
+                return "L" if s_ == lvl else "E"
+
+            def holds(t, order, p):
+                """truth of a comparison term between the given level (L) and the enabled level (E) when L - E has sign `order`"""
+                if t in (sx.TRUE, sx.FALSE):
+                    return t == sx.TRUE
+                if isinstance(t, tuple) and t and t[0] == "not":
+                    v_ = holds(t[1], order, p)
+                    return None if v_ is None else not v_
+                if isinstance(t, tuple) and t and t[0] == "cmp" and {side(t[2]), side(t[3])} == {"L", "E"}:
+                    o = order if side(t[2]) == "L" else -order
+                    return {"<": o < 0, "<=": o <= 0, ">": o > 0, ">=": o >= 0, "==": o == 0, "!=": o != 0}[t[1]]
+                return None
+            for order in (-1, 0, 1):
+                outs = set()
+                for p in some_paths:
+                    consistent = True
+                    for a, b in p.decisions:
+                        if sx.show(a).startswith("has_value("):
+                            continue
+                        v_ = holds(a, order, p)
+                        if v_ is None:
+                            return False
+                        if v_ != b:
+                            consistent = False
+                            break
+                    if consistent:
+                        outs.add(holds(p.outcome[1], order, p))
+                if outs != {order >= 0}:
+                    return False
+            return True
+        ok_some = level_row_ok()
         for nm, ok, detail in (("no-level", ok_none, got_none), ("level-set", ok_some, got_some)):
             if ok:
                 rep.ok("EN-1", "object::enabled|" + nm, F.primary_site(fn), F.fn_name(fn), how="row-equal")
